@@ -3,8 +3,13 @@ package schedx
 import (
 	"context"
 	"fmt"
+	"strings"
 	"testing"
 	"time"
+
+	"github.com/celestiaorg/go-header/store"
+
+	"verif/vk"
 )
 
 type headObs struct {
@@ -217,6 +222,67 @@ func c17Scenarios(batch int) []Scenario {
 			}
 			x.Outcome = checkReader(e, "R", viol)
 			finalState(e, 2, 4, viol)
+		}})
+	// T7: tail-side DeleteRange up to the current head + 1 racing with the append of exactly that next header:
+	// whichever way round they go, a sequential execution leaves the store holding only the new header
+	out = append(out, Scenario{Name: "T7-delete-up-to-head-vs-append-of-next", Batch: batch, Preload: 3,
+		Build: func(e *Env) {
+			e.Thread("W", func() { e.Note("werr", e.St.Append(bg, e.C[4])) })
+			e.Thread("D", func() {
+				ctx, cancel := context.WithTimeout(bg, time.Minute)
+				defer cancel()
+				e.Note("derr", e.St.DeleteRange(ctx, 1, 4))
+			})
+		},
+		Check: func(e *Env, x *Exec, viol func(string, string, ...any)) {
+			if err, _ := e.Get("werr").(error); err != nil {
+				viol("append-failed", "Append(c4) racing with DeleteRange(1,4) failed: %v", err)
+			}
+			if err, _ := e.Get("derr").(error); err != nil {
+				viol("tail-delete-failed", "DeleteRange(1,4) racing with the append of c4 failed: %v", err)
+				x.Outcome = "delete-error"
+				return
+			}
+			x.Outcome = "ok"
+			// the whole-chain deletion (taken when D reads Head before c4 is applied) resets the pointers
+			// without synchronising with the flush loop: a distinct clause for "Append returned nil but
+			// Head and/or Tail stay unset", so that this outcome is identified separately from any other
+			// The whole-chain deletion (taken when D looks for c4 before it is applied) resets the in-memory
+			// pointers and the published height without synchronising with the flush loop. Whether D took
+			// that path is read off the commit log (it deletes the head pointer key); what goes wrong then
+			// is reported under its own clause, so that this outcome is identified separately from any
+			// failure of the ordinary tail-side path.
+			_, _, headK, _ := store.VerifKeys[*vk.H](e.C[1])
+			wiped := false
+			for _, le := range e.DS.Log() {
+				for _, op := range le.Ops {
+					if op.Del && strings.HasSuffix(op.Key, headK) {
+						wiped = true
+					}
+				}
+			}
+			if wiped {
+				x.Outcome = "ok-wiped"
+				bad := false
+				finalState(e, 4, 4, func(clause, format string, a ...any) {
+					if !bad {
+						viol("wipe-raced-append", "DeleteRange took the whole-chain path while Append(c4) was queued; both returned nil but: "+format, a...)
+					}
+					bad = true
+				})
+				if bad {
+					x.Outcome = "wipe-raced-append"
+				}
+				return
+			}
+			finalState(e, 4, 4, viol)
+			for ht := uint64(1); ht < 4; ht++ {
+				ctx, cancel := context.WithTimeout(bg, time.Second)
+				if got, err := e.St.GetByHeight(ctx, ht); err == nil {
+					viol("deleted-header-readable", "height %d was deleted but GetByHeight = %v", ht, got)
+				}
+				cancel()
+			}
 		}})
 	// T6: Sync issued by another thread after Append has returned: everything appended before is
 	// visible to non-waiting reads right after Sync
